@@ -286,7 +286,8 @@ class Gen:
         op = r.choice(["size", "size", "lt", "le", "gt", "ge", "eq", "ne"])
         if op == "size":
             tgt = r.choice(["tstr", "uint"] + (["bstr"] if self.fmt == "cbor" else []))
-            return ctl("size", ref(tgt), lit(C.mk_int(r.choice([0, 1, 2, 3, 4]))))
+            sizes = [0, 1, 2, 3, 4] if tgt != "uint" else [0, 1, 2, 3, 4, 7, 8, 8, 9, 16]
+            return ctl("size", ref(tgt), lit(C.mk_int(r.choice(sizes))))
         if op in ("lt", "le", "gt", "ge"):
             return ctl(op, ref(r.choice(["int", "uint", "nint"])), lit(C.mk_int(r.choice([-3, -1, 0, 1, 2, 10, 256]))))
         tgt = r.choice(["int", "tstr", "uint"])
@@ -543,7 +544,7 @@ class Inst:
                     return C.mk_text(r.choice(["a" * n, "a" * (n + 1), "é" * (n // 2) + "a" * (n % 2), "a" * max(0, n - 1)]))
                 if tn in ("bstr", "bytes"):
                     return C.mk_bytes(b"x" * r.choice([n, n + 1, max(0, n - 1)]))
-                return C.mk_int(r.choice([0, 1, 255, 256, 65535, 65536, 2**24, 2**32 - 1, 2**32, 256 ** n - 1 if n < 9 else 5, 256 ** n if n < 8 else 5]))
+                return C.mk_int(r.choice([0, 1, 255, 256, 65535, 65536, 2**24, 2**32 - 1, 2**32, 256 ** n - 1 if n < 9 else 2**64 - 1, 256 ** n if n < 8 else 2**64 - 1, 2**64 - 1, 2**64 - 2, 2**56]))
             if op in ("lt", "le", "gt", "ge", "eq", "ne") and a is not None:
                 if a["k"] == "int":
                     n = C.int_val(a)
